@@ -399,9 +399,9 @@ package cisco
 // entries count down from 65535, and neither counter ever moves back, so a
 // number once given (the counter is moved past it) is not given again.
 //vc:func matchCryptoMap
-//vc:  invariant[C01,C02] 2 "for _, bSeq := range slices.Sorted(maps.Keys(bSeqMap))" @countersNeverMoveBack static >= loopold(static) && dynamic <= loopold(dynamic)
-//vc:  invariant[C01,C02] 3 "for ; aSeqMap[*seq] != nil; *seq += incr" @searchMovesOutward static >= loopold(static) && dynamic <= loopold(dynamic) && ((seq == addr(static) && incr == 1) || (seq == addr(dynamic) && incr == 0 - 1))
-//vc:  assert[C01,C02] at "f(nil, bSeqL)" @sequenceNumberFreeOnDevice !(deref(seq) in aSeqMap) || aSeqMap[deref(seq)] == nil
+//vc:  invariant[C01,C02,C18] 2 "for _, bSeq := range slices.Sorted(maps.Keys(bSeqMap))" @countersNeverMoveBack static >= loopold(static) && dynamic <= loopold(dynamic)
+//vc:  invariant[C01,C02,C18] 3 "for ; aSeqMap[*seq] != nil; *seq += incr" @searchMovesOutward static >= loopold(static) && dynamic <= loopold(dynamic) && ((seq == addr(static) && incr == 1) || (seq == addr(dynamic) && incr == 0 - 1))
+//vc:  assert[C01,C02,C18] at "f(nil, bSeqL)" @sequenceNumberFreeOnDevice !(deref(seq) in aSeqMap) || aSeqMap[deref(seq)] == nil
 
 // diffASAACLs: a deleted device line that was matched with an added line (a
 // move) is removed from the lookup map: it must not be matched again by a second
